@@ -361,8 +361,10 @@ class Translator:
         return ("raise_sym", fn.qual, getattr(node, "lineno", 0), module, cls_expr, kind, subclasses)
 
     def ext_raises(self, fn, node, classes, kind):
-        """summary raise: "C" raises exactly class C, "C+" raises C or any subclass of C in the universe"""
-        return choice([SKIP] + [self.site(fn, node, "@abs", c.rstrip("+"), kind, c.endswith("+")) for c in classes]) if classes else SKIP
+        """summary raise: "C" raises exactly class C, "C+" raises C or any subclass of C in the universe, "C!" ALWAYS raises C
+        (the callee never returns: sys.exit)"""
+        always = any(c.endswith("!") for c in classes)
+        return choice(([] if always else [SKIP]) + [self.site(fn, node, "@abs", c.rstrip("+!"), kind, c.endswith("+")) for c in classes]) if classes else SKIP
 
     # -- scopes -----------------------------------------------------------------------------------
     def resolve_name(self, fn, name, local_imports):
@@ -1251,7 +1253,144 @@ def analyse(prog, x=None):
             break
         if rounds > 500:
             raise TieBroken("python mirror analysis does not converge")
+    prog["_esc"] = esc
     return table, rounds
+
+
+# ---------------------------------------------------------------------------------------------------
+# witnesses: an oracle (list of bits) under which C03ExnFlow.run follows an execution of the entry point that
+# raises a given site.  Found here by a pruned depth-first search, CHECKED by vm_compute (run_sound).
+# ---------------------------------------------------------------------------------------------------
+def find_witness(prog, entry_q, x, site, max_nodes=400000):
+    esc = prog["_esc"]
+    classes, mro = prog["classes"], prog["mro"]
+    site_cls = [prog["cidx"][s["cls"]] for s in prog["sites"]]
+    supers = [set(prog["cidx"][d] for d in mro[c]) for c in classes]
+    failed = set()
+    budget = [max_nodes]
+
+    def may(s, xx, stk, goal):
+        e, n, a = esc(s, xx, [{j: () for j in [t]} for t in reversed(stk)], "?")
+        if goal[0] == "raise":
+            return goal[1] in e
+        return n if goal[0] == "normal" else a
+
+    def find(s, xx, stk, goal, calls):
+        """stk: innermost first. Returns list of bits or None."""
+        budget[0] -= 1
+        if budget[0] < 0:
+            return None
+        k = s[0]
+        if k == "skip":
+            return [] if goal[0] == "normal" else None
+        if k == "abrupt":
+            return [] if goal[0] == "abrupt" else None
+        if k == "raise":
+            return [] if goal == ("raise", s[1]) else None
+        if k == "reraise":
+            return [] if goal[0] == "raise" and s[1] < len(stk) and stk[s[1]] == goal[1] else None
+        key = (id(s), xx, tuple(stk), goal)
+        if key in failed:
+            return None
+        if not may(s, xx, stk, goal):
+            failed.add(key)
+            return None
+        res = None
+        if k == "call":
+            q = s[1]
+            goals = [goal] if goal[0] == "raise" else ([("normal",), ("abrupt",)] if goal[0] == "normal" else [])
+            for g in goals:
+                ck = (q, xx, g)
+                if ck in calls:
+                    continue
+                res = find(prog["bodies"][q], xx, [], g, calls | {ck})
+                if res is not None:
+                    break
+            if res is None and calls:
+                return None  # may succeed from another call stack: do not memoise
+        elif k == "seq":
+            items = s[1]
+
+            def seq_from(n, acc):
+                if n == len(items) - 1:
+                    r = find(items[n], xx, stk, goal, calls)
+                    return None if r is None else acc + r
+                # stop here with the goal (non-normal goals only) ...
+                if goal[0] != "normal":
+                    r = find(items[n], xx, stk, goal, calls)
+                    if r is not None:
+                        return acc + r
+                # ... or complete normally and go on
+                r = find(items[n], xx, stk, ("normal",), calls)
+                if r is None:
+                    return None
+                return seq_from(n + 1, acc + r)
+
+            res = seq_from(0, [])
+        elif k == "choice":
+            items = s[1]
+            for n, it in enumerate(items):
+                r = find(it, xx, stk, goal, calls)
+                if r is not None:
+                    res = [False] * n + ([True] if n < len(items) - 1 else []) + r
+                    break
+        elif k == "loop":
+            if goal[0] == "normal":
+                res = [False]
+            else:
+                r = find(s[1], xx, stk, goal, calls)
+                res = None if r is None else [True] + r
+        elif k == "withx":
+            res = find(s[2], s[1], stk, goal, calls)
+        elif k == "ifx":
+            res = find(s[1] if xx else s[2], xx, stk, goal, calls)
+        elif k == "try":
+            body, hs, oe, fin = s[1], s[2], s[3], s[4]
+            rf = find(fin, xx, stk, ("normal",), calls)
+            cands = []
+            if rf is not None:
+                # body completes normally, else-clause gives the goal
+                cands.append((("normal",), oe, stk))
+                if goal[0] == "abrupt":
+                    cands.append((("abrupt",), None, stk))
+                be = esc(body, xx, [{t: ()} for t in reversed(stk)], "?")[0]
+                for j in sorted(be):
+                    h = next((hb for cs, hb in hs if supers[site_cls[j]] & set(cs)), None)
+                    if h is None:
+                        if goal == ("raise", j):
+                            cands.append((("raise", j), None, stk))
+                    else:
+                        cands.append((("raise", j), h, [j] + list(stk)))
+                for bgoal, cont, cstk in cands:
+                    if cont is not None and not may(cont, xx, cstk, goal):
+                        continue
+                    rb = find(body, xx, stk, bgoal, calls)
+                    if rb is None:
+                        continue
+                    rc = [] if cont is None else find(cont, xx, cstk, goal, calls)
+                    if rc is None:
+                        continue
+                    res = rb + rc + rf
+                    break
+            if res is None and goal[0] != "normal":
+                # the finally clause itself ends with the goal
+                rfg = find(fin, xx, stk, goal, calls)
+                if rfg is not None:
+                    for bgoal in [("normal",), ("abrupt",)]:
+                        rb = find(body, xx, stk, bgoal, calls)
+                        if rb is not None:
+                            rc = find(oe, xx, stk, ("normal",), calls) if bgoal[0] == "normal" else []
+                            if rc is not None:
+                                res = rb + rc + rfg
+                                break
+        else:
+            raise AssertionError(k)
+        if res is None and not calls:
+            failed.add(key)
+        return res
+
+    bits = find(("call", entry_q), x, [], ("raise", site), frozenset())
+    return bits
 
 
 # ---------------------------------------------------------------------------------------------------
